@@ -688,7 +688,7 @@ int main() {
         } else if (op == "fcfg" && w.size() == 4 && slotOf(w[1], k) && g_sinks[k - 1].is_file
                    && ((w[2] == "path" && (w[3] == "same" || w[3] == "new")) || (w[2] == "prefix" && (w[3] == "same" || w[3] == "new"))
                        || (w[2] == "sync" && (w[3] == "0" || w[3] == "1")) || (w[2] == "max" && w[3].size() <= 9 && vh::to_u64(w[3], n)))) {
-            // reconfiguration of a file sink that is in use (call it at a quiescent point: after `settle`); `same` = the value it already has
+            // reconfiguration of a file sink that is in use (call it at a quiescent point: after `settle` - the back end is idle, a tail may be cached); `same` = the value it already has
             SinkSlot &sl = g_sinks[k - 1];
             if (w[2] == "max") {
                 { std::lock_guard<std::mutex> lk(ip::mx); ip::ktrace[(int)k].push_back("setmax " + std::to_string(n)); }
